@@ -3,6 +3,7 @@
 package main
 
 import (
+	"encoding/binary"
 	"context"
 	"crypto/sha256"
 	"errors"
@@ -152,6 +153,23 @@ func (f *certFam) msgBytes(s string) ([]byte, bool) {
 		return t.ToBytes(), true
 	case strings.HasPrefix(s, "raw:"):
 		return []byte(s), true
+	case strings.HasPrefix(s, "enc:"):
+		// enc:<id>:<msg> — the bytes the signature cache hashes for the one-entry batch {id: msg}:
+		// id (4 bytes LE), length of msg (8 bytes LE), msg.  As a MESSAGE of its own it is something else.
+		p := strings.SplitN(s, ":", 3)
+		if len(p) != 3 {
+			return nil, false
+		}
+		id, err := strconv.ParseUint(p[1], 10, 32)
+		inner, ok := f.msgBytes(p[2])
+		if err != nil || !ok {
+			return nil, false
+		}
+		var n [8]byte
+		binary.LittleEndian.PutUint64(n[:], uint64(len(inner)))
+		out := append([]byte{}, hotstuff.ID(id).ToBytes()...)
+		out = append(out, n[:]...)
+		return append(out, inner...), true
 	}
 	return nil, false
 }
